@@ -19,7 +19,7 @@ class Boom(Exception):
     pass
 
 
-VARIANTS = ["fn", "twin", "m1", "m2", "static"]
+VARIANTS = ["fn", "twin", "other", "m1", "m2", "static"]
 SPELL = ["pos", "kw", "pos+default", "kw+default", "pos+kwonly-default", "kw+all"]
 
 
@@ -63,14 +63,19 @@ def make_targets(runs, dur, fails, item, reenter=(False, False), self_dirty=(Fal
             raise Boom((tag, k, n))
         return [tag, k, n]
 
-    def factory(tag):
-        # "fn" and "twin" are two functions with one name, module and qualified name
-        @deduplicate()
+    shared_decorator = deduplicate()      # one decorator object applied to several functions
+
+    def factory(tag, dflt):
+        # "fn" and "twin" are two functions with one name, module and qualified name, decorated by the same decorator
+        # object; their defaults differ
+        @shared_decorator
         @A()
-        def fn(k, extra=7, *, fresh=False):
+        def fn(k, extra=dflt, *, fresh=False):
             return (yield from body(tag, k))
         return fn
-    fn, twin = factory("fn"), factory("twin")
+    fn, twin, other = factory("fn", 7), factory("twin", 7), factory("other", 8)
+    DEFAULTS.clear()
+    DEFAULTS[id(other)] = (other, 8)
 
     class C(object):
         def __init__(self, name):
@@ -92,44 +97,53 @@ def make_targets(runs, dur, fails, item, reenter=(False, False), self_dirty=(Fal
             return (yield from body("static", k))
 
     i1, i2 = C("m1"), C("m2")
-    holder.update({"fn": fn, "twin": twin, "m1": i1.m, "m2": i2.m, "static": C.s})
+    holder.update({"fn": fn, "twin": twin, "other": other, "m1": i1.m, "m2": i2.m, "static": C.s})
     return dict(holder), (i1, i2)
+
+
+DEFAULTS = {}      # id(decorated callable) -> its default for ``extra`` (the table keeps the callable alive)
+
+
+def dflt_of(target):
+    return DEFAULTS.get(id(target), (None, 7))[1]
 
 
 def call_async(target, k, spell):
     k = KEYVAL[k]
+    D = dflt_of(target)
     if spell == "pos":
         return target.asynq(k)
     if spell == "kw":
         return target.asynq(k=k)
     if spell == "pos+default":
-        return target.asynq(k, 7)
+        return target.asynq(k, D)
     if spell == "pos+kwonly-default":
         return target.asynq(k, fresh=False)
     if spell == "kw+all":
-        return target.asynq(fresh=False, extra=7, k=k)
-    return target.asynq(k=k, extra=7)
+        return target.asynq(fresh=False, extra=D, k=k)
+    return target.asynq(k=k, extra=D)
 
 
 def call_dirty(target, k, spell):
     k = KEYVAL[k]
+    D = dflt_of(target)
     if spell == "pos":
         return target.dirty(k)
     if spell == "kw":
         return target.dirty(k=k)
     if spell == "pos+default":
-        return target.dirty(k, 7)
+        return target.dirty(k, D)
     if spell == "pos+kwonly-default":
         return target.dirty(k, fresh=False)
     if spell == "kw+all":
-        return target.dirty(fresh=False, extra=7, k=k)
-    return target.dirty(k=k, extra=7)
+        return target.dirty(fresh=False, extra=D, k=k)
+    return target.dirty(k=k, extra=D)
 
 
 # ---------------------------------------------------------------------------------------------------
 
 def strat_timed(tier):
-    ev = st.tuples(st.integers(0, 6), st.sampled_from(["call", "call", "call", "dirty"]), st.sampled_from(["fn", "fn", "twin", "m1", "m1", "m2", "m2", "static"]),
+    ev = st.tuples(st.integers(0, 6), st.sampled_from(["call", "call", "call", "dirty"]), st.sampled_from(["fn", "fn", "twin", "other", "m1", "m1", "m2", "m2", "static"]),
                    st.integers(0, 1), st.sampled_from(SPELL)).map(list)
     return st.fixed_dictionaries({"events": st.lists(ev, min_size=2, max_size=8 if tier == "quick" else 14),
                                   "dur": st.lists(st.sampled_from([1, 2, 2, 3, 4]), min_size=2, max_size=2),
@@ -274,9 +288,9 @@ def check_timed(case, ctx):
 
 def strat_top(tier):
     op = st.one_of(
-        st.tuples(st.just("call"), st.sampled_from(["fn", "fn", "twin", "m1", "m2", "static"]), st.integers(0, 1), st.sampled_from(SPELL)).map(list),
+        st.tuples(st.just("call"), st.sampled_from(["fn", "fn", "twin", "other", "m1", "m2", "static"]), st.integers(0, 1), st.sampled_from(SPELL)).map(list),
         st.tuples(st.just("value"), st.integers(0, 7)).map(list),
-        st.tuples(st.just("dirty"), st.sampled_from(["fn", "fn", "twin", "m1", "m2", "static"]), st.integers(0, 1), st.sampled_from(SPELL)).map(list),
+        st.tuples(st.just("dirty"), st.sampled_from(["fn", "fn", "twin", "other", "m1", "m2", "static"]), st.integers(0, 1), st.sampled_from(SPELL)).map(list),
     )
     return st.fixed_dictionaries({"ops": st.lists(op, min_size=2, max_size=12 if tier == "quick" else 24),
                                   "fails": st.lists(st.sampled_from([False, False, True]), min_size=2, max_size=2)})
